@@ -29,6 +29,13 @@ DIRECTED = [
     [[{"t": "get", "id": 4}, {"t": "get", "id": 4}], [{"t": "delete", "id": 4}, {"t": "insert", "id": 4, "v": 5, "m": {"k1": 2, "k2": 1}}]],
     [[{"t": "get", "id": 4}, {"t": "aware", "id": 4}], [{"t": "delete", "id": 4}, {"t": "insert", "id": 4, "v": 6, "m": {"k1": 1, "k2": 2}}]],
     [[{"t": "getwm", "id": 4}, {"t": "get", "id": 4}], [{"t": "insert", "id": 4, "v": 5, "m": {"k1": 2, "k2": 1}}]],
+    # two racing overwrites (the loser's mirror refresh can carry the winner's token), then each read flavour FIRST after
+    # them (a flavour that validates fully scrubs the entry, so every flavour needs its own combination)
+    [[{"t": "insert", "id": 1, "v": 5, "m": {"k1": 2, "k2": 1}}, {"t": "bulkget", "ids": [1, 3]}], [{"t": "insert", "id": 1, "v": 6, "m": {"k1": 1, "k2": 2}}, {"t": "bulkget", "ids": [1, 3]}]],
+    [[{"t": "insert", "id": 1, "v": 5, "m": {"k1": 2, "k2": 1}}, {"t": "get", "id": 1}], [{"t": "insert", "id": 1, "v": 6, "m": {"k1": 1, "k2": 2}}, {"t": "aware", "id": 1}]],
+    # a merging metadata update (one key) racing with an overwrite: the merged record belongs to one of the two orders
+    [[{"t": "umeta", "id": 1, "m": {"k1": 0, "k2": 2}, "merge": True}, {"t": "getwm", "id": 1}], [{"t": "insert", "id": 1, "v": 5, "m": {"k1": 1, "k2": 1}}, {"t": "bulkget", "ids": [1, 3]}]],
+    [[{"t": "umeta", "id": 3, "m": {"k1": 0, "k2": 2}, "merge": True}], [{"t": "insert", "id": 3, "v": 6, "m": {"k1": 1, "k2": 1}}, {"t": "getwm", "id": 3}]],
 ]
 
 
